@@ -80,6 +80,9 @@ func canonOf(f *ssa.Function) *canonFn {
 	}
 	c := &canonFn{param: map[*ssa.Parameter]string{}, local: map[*ssa.Alloc]string{}}
 	canonCache[f] = c
+	if f.Synthetic != "" && f.Origin() == nil {
+		return c // wrappers and thunks: not source functions
+	}
 	if o := origin(f); o != f {
 		// instantiation of a generic function: same positions as its origin
 		if len(o.Params) == len(f.Params) {
@@ -190,7 +193,7 @@ func canonFree(fv *ssa.FreeVar) string {
 func genNames(w *World) []byte {
 	out := map[string]fnNames{}
 	for _, f := range w.lunarFns {
-		if origin(f) != f {
+		if origin(f) != f || f.Synthetic != "" {
 			continue
 		}
 		n := currentNames(f)
